@@ -906,9 +906,9 @@ func cmdReplay(path, repo string) int {
 	if err := json.Unmarshal(bs, &rf); err != nil {
 		fatal2("bad replay file: %v", err)
 	}
-	if rf.Opts.Repo == "" {
-		rf.Opts.Repo = repo
-	}
+	// the tree under test is always the one this command was started for; the
+	// path recorded in the file may be a scratch tree that no longer exists
+	rf.Opts.Repo = repo
 	b := buildWorker(repo)
 	defer b.cleanup()
 	if rf.Slice != nil {
